@@ -24,6 +24,7 @@ CONSTANTS MaxRestarts,   \* Fastly: a request may be restarted at most 3 times
           MaxReq,        \* requests per simulator history
           Urls,          \* request URLs = cache keys (vcl_hash keeps the default)
           Statuses,      \* status the stub backend answers with: 200 cacheable, 500 not
+          JailChoices,   \* may a request put the client into the penalty box ({FALSE} or BOOLEAN)
           KCover         \* how many trailing labels are part of the VIEW (k-switch cover)
 
 Subs == {"recv", "hash", "hit", "miss", "pass", "fetch", "error", "deliver", "log"}
@@ -104,6 +105,8 @@ VARIABLES
   cache,     \* url |-> "none" | "fresh" | "expired"   (persists across requests)
   ttl0,      \* vcl_fetch set beresp.ttl = 0s in this attempt
   uncache,   \* vcl_fetch set beresp.cacheable = false in this attempt
+  jailed,    \* shared penalty box: some earlier request put the client in (entries live for minutes)
+  jail,      \* this request puts the client into the penalty box (after looking whether it is in)
   count,     \* shared rate counter: every request increments it once, on its first entry into vcl_recv
   young,     \* the object under `url` was stored during this request (its entry time is "now")
   pc,        \* "run" | "done" (request finished ok) | "err" (reported error) | "stop"
@@ -113,17 +116,17 @@ VARIABLES
   cur,       \* record of the request in progress
   hist       \* completed request records
 
-vars == <<req, url, status, scope, viaPass, restarts, branch, didLookupHit, attempt, cache, count, ttl0, uncache, young, pc, lastK, defined, cur, hist>>
-View == <<req, url, status, scope, viaPass, restarts, branch, didLookupHit, attempt, cache, count, ttl0, uncache, young, pc, lastK, defined>>
+vars == <<req, url, status, scope, viaPass, restarts, branch, didLookupHit, attempt, cache, count, jailed, jail, ttl0, uncache, young, pc, lastK, defined, cur, hist>>
+View == <<req, url, status, scope, viaPass, restarts, branch, didLookupHit, attempt, cache, count, jailed, jail, ttl0, uncache, young, pc, lastK, defined>>
 
-NewCur(u, st, c) == [url |-> u, status |-> st, prog |-> <<>>, flows |-> <<>>, storedBefore |-> (c[u] = "fresh"), seen |-> 0]
+NewCur(u, st, c) == [url |-> u, status |-> st, prog |-> <<>>, flows |-> <<>>, storedBefore |-> (c[u] = "fresh"), seen |-> 0, sawJail |-> FALSE, jail |-> FALSE]
 
 Init ==
   /\ req = 1 /\ url \in Urls /\ status \in Statuses
   /\ scope = "recv" /\ viaPass = FALSE /\ restarts = 0 /\ branch = "none" /\ didLookupHit = FALSE /\ attempt = "none"
-  /\ cache = [u \in Urls |-> "none"] /\ count = 0 /\ ttl0 = FALSE /\ uncache = FALSE /\ young = FALSE
+  /\ cache = [u \in Urls |-> "none"] /\ count = 0 /\ jailed = FALSE /\ jail \in JailChoices /\ ttl0 = FALSE /\ uncache = FALSE /\ young = FALSE
   /\ pc = "run" /\ lastK = <<>> /\ defined = Subs
-  /\ cur = NewCur(url, status, cache) /\ hist = <<>>
+  /\ cur = [NewCur(url, status, cache) EXCEPT !.jail = jail] /\ hist = <<>>
 
 PushK(l, x) == IF KCover = 0 THEN <<>> ELSE IF Len(l) < KCover THEN Append(l, x) ELSE Append(Tail(l), x)
 
@@ -161,11 +164,15 @@ StepGen(b, logged, c1, absentRecv) ==
   \* the generated program increments the shared rate counter on the first entry into vcl_recv and logs the
   \* count it got back: state that outlives a request persists (the n-th request served sees n)
   /\ count' = (IF logged /\ s = "recv" /\ restarts = 0 THEN count + 1 ELSE count)
+  \* ... and looks whether the client is in the penalty box, then (if this request is a jailer) puts it in
+  /\ jailed' = (IF logged /\ s = "recv" /\ restarts = 0 THEN jailed \/ jail ELSE jailed)
+  /\ UNCHANGED jail
   /\ cur' = IF logged
             THEN [cur EXCEPT !.prog = Append(@, [sub |-> s, at |-> restarts, beh |-> b, vp |-> viaPass,
                                                  stored |-> (cache[url] = "fresh")]),
                              !.flows = Append(@, s),
-                             !.seen = (IF s = "recv" /\ restarts = 0 THEN count + 1 ELSE @)]
+                             !.seen = (IF s = "recv" /\ restarts = 0 THEN count + 1 ELSE @),
+                             !.sawJail = (IF s = "recv" /\ restarts = 0 THEN jailed ELSE @)]
             ELSE cur
   /\ lastK' = PushK(lastK, <<s, b>>)
   /\ cache' = c1
@@ -202,7 +209,8 @@ FinalBranch(fl, i) ==
   ELSE IF fl[i] = "recv" THEN "none"
   ELSE FinalBranch(fl, i - 1)
 CurDone == [url |-> cur.url, status |-> cur.status, prog |-> cur.prog, flows |-> cur.flows,
-            storedBefore |-> cur.storedBefore, seen |-> cur.seen, restarts |-> restarts,
+            storedBefore |-> cur.storedBefore, seen |-> cur.seen, sawJail |-> cur.sawJail, jail |-> cur.jail,
+            restarts |-> restarts,
             outcome |-> (IF pc = "done" THEN "ok" ELSE "error"), branch |-> branch, cached |-> didLookupHit,
             storedAfter |-> (cache[cur.url] = "fresh"),
             finalBranch |-> FinalBranch(cur.flows, Len(cur.flows))]
@@ -210,12 +218,12 @@ CurDone == [url |-> cur.url, status |-> cur.status, prog |-> cur.prog, flows |->
 NextRequest ==
   /\ pc \in {"done", "err"} /\ req < MaxReq
   /\ hist' = Append(hist, CurDone)
-  /\ req' = req + 1 /\ url' \in Urls /\ status' \in Statuses
+  /\ req' = req + 1 /\ url' \in Urls /\ status' \in Statuses /\ jail' \in JailChoices
   /\ scope' = "recv" /\ viaPass' = FALSE /\ restarts' = 0 /\ branch' = "none" /\ didLookupHit' = FALSE /\ attempt' = "none"
   /\ ttl0' = FALSE /\ uncache' = FALSE /\ young' = FALSE /\ pc' = "run"
   /\ lastK' = PushK(lastK, <<"next", url'>>)
-  /\ cur' = NewCur(url', status', cache)
-  /\ UNCHANGED <<cache, count, defined>>
+  /\ cur' = [NewCur(url', status', cache) EXCEPT !.jail = jail']
+  /\ UNCHANGED <<cache, count, jailed, defined>>
 
 Next == (\E b \in Beh(scope) : Step(b)) \/ Skip \/ NextRequest
 Spec == Init /\ [][Next]_vars /\ WF_vars(Next)
@@ -247,6 +255,9 @@ PathOK == \A i \in 1..(Len(cur.flows) - 1) : EdgeOK(i)
 
 \* the rate counter persists: the n-th request of a history sees n
 CounterPersists == (Len(cur.flows) > 0) => cur.seen = req
+
+\* the penalty box persists: a request sees the client jailed iff an earlier request of the history jailed it
+JailPersists == (Len(cur.flows) > 0) => (cur.sawJail = \E i \in 1..Len(hist) : hist[i].jail)
 
 \* never a hit on the first request to a fresh simulator
 FirstRequestMisses == (req = 1 /\ restarts = 0) => branch # "HIT"
@@ -288,6 +299,7 @@ Completed ==
      LET r == Rest(scope, viaPass, cache, [flows |-> cur.flows, cache |-> cache, branch |-> branch, cached |-> didLookupHit], branch) IN
      [url |-> cur.url, status |-> cur.status, prog |-> cur.prog, flows |-> r.flows,
       storedBefore |-> cur.storedBefore, seen |-> (IF Len(cur.flows) = 0 THEN count + 1 ELSE cur.seen),
+      sawJail |-> (IF Len(cur.flows) = 0 THEN jailed ELSE cur.sawJail), jail |-> cur.jail,
       restarts |-> restarts, outcome |-> "ok",
       branch |-> r.branch, cached |-> r.cached, storedAfter |-> (r.cache[cur.url] = "fresh"),
       finalBranch |-> FinalBranch(r.flows, Len(r.flows))]
